@@ -6,7 +6,7 @@ from common import *
 import engine, javagen, qrun, querygen, scan
 
 N = {  # tier -> property -> number of generated queries (before variants)
-    'quick': dict(C01=350, C02=350, C10=600, C11=220, C12=70, C13=120, C14=160, C15=120, C16=60),
+    'quick': dict(C01=350, C02=350, C10=400, C11=220, C12=70, C13=120, C14=160, C15=120, C16=60),
     'thorough': dict(C01=6000, C02=6000, C10=30000, C11=3000, C12=700, C13=2000, C14=3000, C15=1500, C16=600),
 }
 
@@ -1893,8 +1893,11 @@ def check_c10_c11(c, result):
         res, ip, _ = c.run(tq, project=project)
         if project is None:
             res_ne = res
-            model = c.model(tq)
-            c.tie(tq, res, ip, model, result)
+            # the extracted model enumerates the full cross product: queries over three or more kinds (millions of
+            # combinations on this project) are left to the implementation-side checks
+            tq_m = [(qid_, t_) for qid_, t_ in tq if t_.count(' AS ') <= 2]
+            model = c.model(tq_m)
+            c.tie(tq_m, res, ip, model, result)
         for qid, t in tq:
             oc, payload = res.get(qid, ('missing', ''))
             c.stats['%s_%s' % (gname, oc)] += 1
@@ -1917,7 +1920,7 @@ def check_c10_c11(c, result):
         sweep_q = [('sw0', 'FROM method_declaration AS m WHERE m.getName() != "zz" SELECT m.getName()'), ('sw1', 'FROM method_declaration AS m WHERE m.getName() SELECT m'),
                    ('sw2', 'FROM method_declaration AS m SELECT m.getName()')]
         procs = ['16', '24', '64', '3', '8', '2', '48', '12']
-        ns = list(range(128, K + 1, 2)) + [129, 131, 133, 145, 147, 161, 163, 177, 179] if c.tier == 'quick' else list(range(1, K + 1))
+        ns = list(range(128, K + 1, 3)) + [129, 131, 133, 145, 147, 161, 163, 177, 179] if c.tier == 'quick' else list(range(1, K + 1))
         for j, n in enumerate(ns):
             path = tower + '/d' * (K - n + 1)
             for pr in ([procs[j % len(procs)]] if c.tier == 'quick' else procs[:6]):
